@@ -24,13 +24,13 @@ fn main() {
 }
 
 // ------------------------------------------------------------------ the database under test
-/// scratch directory of this process: /verif/build/tmp/c14-<pid> (removed at the end)
+/// scratch directory of this process: /verif/build/tmp/C14/db-<pid> (removed at the end)
 fn scratch_root() -> PathBuf {
     let exe = std::env::current_exe().ok();
     // <verif>/build/target/debug/c14 -> <verif>/build/tmp
     let base = exe.as_ref().and_then(|p| p.parent()).and_then(|p| p.parent()).and_then(|p| p.parent())
         .map(|p| p.join("tmp")).unwrap_or_else(|| PathBuf::from("/verif/build/tmp"));
-    base.join(format!("c14-{}", std::process::id()))
+    base.join("C14").join(format!("db-{}", std::process::id()))
 }
 
 struct Sut { db: Option<Database>, dir: PathBuf, seq: u64, loaded: Option<Table> }
@@ -232,16 +232,21 @@ fn gen(a: &Args) {
             for l in &leaves {
                 emit(&mut w, &mut sut, Shape::Where, 0, &t, l, "structured");
                 emit(&mut w, &mut sut, Shape::Select, 0, &t, l, "structured");
-                for wrapped in [Expr::not(l.clone()), Expr::is_null(false, l.clone()), Expr::not(Expr::not(l.clone()))] {
+                let wraps = [Expr::not(l.clone()), Expr::is_null(false, l.clone()), Expr::not(Expr::not(l.clone()))];
+                // thorough: every wrap in both shapes; quick: one of them
+                let pick = rng.below(3) as usize;
+                for (k, wrapped) in wraps.iter().enumerate() {
+                    if !a.thorough() && k != pick { continue; }
                     let sty = if wrapped.has_bare() && rng.chance(1, 2) { 1 } else { 0 };
-                    emit(&mut w, &mut sut, Shape::Where, sty, &t, &wrapped, "structured");
-                    if a.thorough() || rng.chance(1, 6) { emit(&mut w, &mut sut, Shape::Select, sty, &t, &wrapped, "structured"); }
+                    if a.thorough() || rng.chance(1, 2) { emit(&mut w, &mut sut, Shape::Where, sty, &t, wrapped, "structured"); }
+                    else { emit(&mut w, &mut sut, Shape::Select, sty, &t, wrapped, "structured"); }
+                    if a.thorough() { emit(&mut w, &mut sut, Shape::Select, sty, &t, wrapped, "structured"); }
                 }
             }
             // pairs of leaves under AND / OR: all of them (thorough) or a sample (quick)
             let n = leaves.len();
             let pairs: Vec<(usize, usize)> = if a.thorough() { (0..n).flat_map(|i| (0..n).map(move |j| (i, j))).collect() }
-                                             else { (0..500).map(|_| (rng.below(n as u64) as usize, rng.below(n as u64) as usize)).collect() };
+                                             else { (0..150).map(|_| (rng.below(n as u64) as usize, rng.below(n as u64) as usize)).collect() };
             for (i, j) in pairs {
                 let e = if rng.chance(1, 2) { Expr::and(leaves[i].clone(), leaves[j].clone()) } else { Expr::or(leaves[i].clone(), leaves[j].clone()) };
                 if rng.chance(1, 2) { emit(&mut w, &mut sut, Shape::Where, 0, &t, &e, "structured"); } else { emit(&mut w, &mut sut, Shape::Select, 0, &t, &e, "structured"); }
@@ -249,11 +254,10 @@ fn gen(a: &Args) {
         } else { w.count("setup_failed", 1); }
     }
     // ---- random streams
-    let (ntables, per_table) = if a.thorough() { (420, 50) } else { (84, 24) };
+    let (ntables, per_table) = if a.thorough() { (420, 50) } else { (42, 16) };
     for k in 0..ntables {
-        // `plain` stays inside the fragment where TurDB is expected to be right (no NOT, no negated
-        // forms, no NULL / boolean literals; every other table with few NULLs), `full` uses
-        // everything, `wide` adds extreme numbers, tiny floats and awkward text, `mixed` also
+        // `plain`: no NOT, no negated forms, no NULL / boolean literals (every other table with few
+        // NULLs), `full` uses everything, `wide` adds extreme numbers, tiny floats and awkward text, `mixed` also
         // compares unrelated types (outside the reference semantics; the model still has to
         // predict the implementation)
         let (stream, cfg) = match k % 7 {
@@ -329,58 +333,18 @@ fn search(a: &Args) {
     std::fs::write(&a.out, out).expect("write search output");
 }
 
-/// rough tag of the recorded finding classes for a failing case (search mode only; the
-/// authoritative classification is known_class in coq/Corr/C14.v / Model/PredClass.v)
-fn rough_class(shape: Shape, t: &Table, e: &Expr, out: &QOut) -> u32 {
-    let null_on_some_row = |x: &Expr| t.rows.iter().any(|r| matches!(eval(x, r), Some(Val::Null)));
+/// rough tag of the recorded OPEN finding classes for a failing case (search mode only; the
+/// authoritative classification is known_class in coq/Corr/C14.v / Model/PredClass.v).
+/// 13: a BETWEEN bound that is arithmetic over NULL on some row.
+fn rough_class(_shape: Shape, t: &Table, e: &Expr, _out: &QOut) -> u32 {
     let mut k = 0u32;
-    let mut set = |c: u32| { if k == 0 { k = c; } };
-    if shape == Shape::Where {
-        if matches!(out, QOut::Err(_)) { return 8; }
-        // NOT (or a non-boolean leaf) in predicate position
-        fn pred_not(e: &Expr) -> bool {
-            match e {
-                Expr::And(a, b) | Expr::Or(a, b) => pred_not(a) || pred_not(b),
-                Expr::Not(_) | Expr::Col(_) | Expr::Arith(..) => true,
-                Expr::Lit(Val::Bool(_)) => false,
-                Expr::Lit(_) => true,
-                _ => false,
+    e.walk(&mut |x| {
+        if let Expr::Between(_, _, lo, hi) = x {
+            for b in [lo, hi] {
+                if matches!(**b, Expr::Arith(..)) && t.rows.iter().any(|r| matches!(eval(b, r), Some(Val::Null))) { k = 13; }
             }
         }
-        if pred_not(e) { return 1; }
-    }
-    e.walk(&mut |x| match x {
-        Expr::Lit(Val::Int(i64::MIN)) => set(11),
-        Expr::IsNull(_, a) if a.is_boolean_form() && !matches!(**a, Expr::Lit(Val::Null)) => set(5),
-        Expr::Cmp(op, a, b) => {
-            if let (Expr::Lit(x), Expr::Lit(y)) = (&**a, &**b) {
-                if matches!(op, CmpOp::Eq | CmpOp::Ne) && shape == Shape::Where && (x.is_null() || y.is_null() || std::mem::discriminant(x) != std::mem::discriminant(y)) { set(7); }
-            }
-            if shape == Shape::Where && matches!(op, CmpOp::Eq | CmpOp::Le | CmpOp::Ge) && t.rows.iter().any(|r| matches!((eval(a, r), eval(b, r)), (Some(Val::Null), Some(Val::Null)))) { set(2); }
-        }
-        Expr::In(neg, a, l) => {
-            if shape == Shape::Where {
-                if *neg && (null_on_some_row(a) || l.iter().any(|i| null_on_some_row(i))) { set(4); }
-                if !*neg && null_on_some_row(a) && l.iter().any(|i| null_on_some_row(i)) { set(3); }
-            }
-            if l.iter().any(|i| t.rows.iter().any(|r| matches!((eval(a, r), eval(i, r)), (Some(Val::Float(_)), Some(_)) | (Some(_), Some(Val::Float(_)))))) { set(10); }
-        }
-        Expr::Between(true, a, lo, hi) if shape == Shape::Where => { if null_on_some_row(a) || null_on_some_row(lo) || null_on_some_row(hi) { set(4); } }
-        Expr::Like(neg, a, p) => {
-            if shape == Shape::Where && *neg && (null_on_some_row(a) || null_on_some_row(p)) { set(4); }
-            if t.rows.iter().any(|r| matches!((eval(a, r), eval(p, r)), (Some(Val::Text(s)), Some(Val::Text(q))) if s.contains(&b'%') && q.contains(&b'%'))) { set(9); }
-        }
-        _ => {}
     });
-    if k == 0 && shape == Shape::Select {
-        // an UNKNOWN sub-predicate (or a NULL operand of BETWEEN) on some row
-        let mut unk = false;
-        e.walk(&mut |x| {
-            if x.is_boolean_form() && t.rows.iter().any(|r| sem3(x, r) == Some(Tv::U)) { unk = true; }
-            if let Expr::Between(_, a, lo, hi) = x { if null_on_some_row(a) || null_on_some_row(lo) || null_on_some_row(hi) { unk = true; } }
-        });
-        if unk { k = 6; }
-    }
     k
 }
 
